@@ -99,15 +99,34 @@ def commuting_case(rng, tier):
         system = oqupy.TimeDependentSystem(lambda t, h0=h0, w=w: (1.0 + 0.5 * np.cos(w * t)) * h0)
     else:
         system = oqupy.System(h0)
-    corr, cdesc = cases.rand_correlations(rng)
-    dkmax, tau = cases.rand_memory(rng, n)
     dt = rng.choice([0.1, 0.05, 0.2])
+    modes_eta = None
+    if rng.random() < 0.35:
+        # a bath of finitely many harmonic modes, given through its autocorrelation function;
+        # every other case with frequencies commensurate with the time step
+        from . import run_C12
+        temp = rng.choice([0.0, 0.7, 2.0])
+        unit = 2 * np.pi / dt
+        if rng.random() < 0.5:
+            modes = [(unit * rng.choice([1, 2]) / rng.choice([1, 2]), rng.uniform(0.1, 0.4))
+                     for _ in range(rng.choice([1, 2]))]
+            kind = "commensurate"
+        else:
+            modes = [(rng.uniform(0.5, 6.0), rng.uniform(0.1, 0.4)) for _ in range(rng.choice([1, 2, 3]))]
+            kind = "incommensurate"
+        f, eta_exact, _ = run_C12.mode_corr(modes, temp)
+        corr = oqupy.CustomCorrelations(f)
+        cdesc = ("modes", kind, [list(m) for m in modes], temp)
+        modes_eta = eta_exact
+    else:
+        corr, cdesc = cases.rand_correlations(rng)
+    dkmax, tau = cases.rand_memory(rng, n)
     start = rng.choice([0.0, 0.4, -1.0])
     rho0 = cases.rand_dm(rng, d)
     desc = {"d": d, "n": n, "eigenvalues": ev, "rotated": rotated, "timedep": timedep, "bath": cdesc,
             "dkmax": dkmax, "add_correlation_time": tau, "dt": dt, "start_time": start}
     return dict(d=d, n=n, coupling=coupling, correlations=corr, system=system, dkmax=dkmax, tau=tau,
-                dt=dt, start=start, rho0=rho0, desc=desc, v=v, ev=ev)
+                dt=dt, start=start, rho0=rho0, desc=desc, v=v, ev=ev, modes_eta=modes_eta)
 
 
 def closed_form(case, tempo, s_list):
@@ -176,6 +195,19 @@ def corr_closed_form(res, tier, rng):
         e2 = max(np.abs(np.array(pdyn.states[k + 1]).reshape(-1) - cf[k]).max() for k in range(case["n"]))
         res.case(repr(case["desc"]), True, {"case": case["desc"], "Tempo_vs_closed_form": e1,
                                             "PT+compute_dynamics_vs_closed_form": e2})
+        if case["modes_eta"] is not None and case["dkmax"] is None:
+            # full memory has its documented meaning: S_n is the double time integral, known in
+            # closed form for a finite-mode bath (Props.C01.full_memory_sum)
+            s_exact = [complex(case["modes_eta"](k * case["dt"])) for k in range(1, case["n"] + 1)]
+            cfx = closed_form(case, t, s_exact)
+            e3 = max(np.abs(np.array(dyn.states[k + 1]).reshape(-1) - cfx[k]).max()
+                     for k in range(case["n"]))
+            res.count("closed:finite-mode-analytic")
+            if e3 > 1e-7:
+                res.disagree("Tempo differs from the independent-boson solution with the ANALYTIC "
+                             "double integral of a finite-mode bath by %g (the eta cells returned by "
+                             "correlation_2d_integral do not sum to the double integral)" % e3,
+                             case["desc"])
         if e1 > 1e-8:
             res.disagree("Tempo differs from the closed form of commuting_collapse/decoherence_factor "
                          "by %g" % e1, case["desc"])
@@ -188,8 +220,30 @@ def search(res):
     """independent-boson solution with the double integral done by direct quadrature"""
     import oqupy
     from scipy import integrate
-    from . import cases
+    from . import cases, run_C12
     rng = random.Random(res.seed + 101)
+    # (0) finite-mode baths given by their autocorrelation function: the cells must be the
+    #     analytic integrals (also for frequencies commensurate with the cell size)
+    for (label, d, modes, temp) in run_C12.mode_cases("quick", rng):
+        for (shape, t1, t2) in run_C12.mode_cells(d, rng, 4):
+            bad = run_C12.oracle_modes(label, d, modes, temp, shape, t1, t2)
+            if bad is not None:
+                res.fail("cells:" + run_C12.modes_key(label, shape), bad)
+    # (0b) memory settings have their documented meaning: with dkmax*dt + add_correlation_time
+    #      covering the whole run, a cut-off run must equal the full-memory run
+    for i in range(4):
+        case = commuting_case(rng, "quick")
+        n, dt = case["n"], case["dt"]
+        full = dict(case, dkmax=None, tau=None)
+        for (kc, tau) in [(1, (n + 1) * dt), (max(1, n - 2), n * dt), (1, np.inf)]:
+            cut = dict(case, dkmax=kc, tau=tau)
+            a = cases.make_tempo(full, epsrel=1e-11).compute(cases.end_time(case), progress_type="silent").states
+            b = cases.make_tempo(cut, epsrel=1e-11).compute(cases.end_time(case), progress_type="silent").states
+            err = np.abs(np.array(a) - np.array(b)).max()
+            if err > 1e-7:
+                res.fail("memory-meaning:dkmax+add_correlation_time covering the run",
+                         {"case": case["desc"], "dkmax": kc, "add_correlation_time": tau,
+                          "difference_to_full_memory": err})
     for i in range(8):
         case = commuting_case(rng, "quick")
         case["dkmax"], case["tau"] = None, None
